@@ -159,8 +159,32 @@ func runC11(c *Ctx) {
 				"insertion is reachable without passing the not-exists edge of a lookup in playerIDs (a duplicate UUID could be registered)")
 			// (b) no Unlock/Lock of muP between that lookup and the insertion
 			ms := NewMustSince(fn, func(x ssa.Instruction) bool {
-				lk, ok := x.(*ssa.Lookup)
-				return ok && lk.CommaOk && isRegMap(lk.X) == "playerIDs"
+				if lk, ok := x.(*ssa.Lookup); ok {
+					return lk.CommaOk && isRegMap(lk.X) == "playerIDs"
+				}
+				// the existence test may live in an unexported helper called with the lock held
+				if cl, ok := x.(*ssa.Call); ok {
+					if h := staticCallee(&cl.Call); h != nil && isUnexportedHelper(h) {
+						found := false
+						eachInstr(h, func(y ssa.Instruction) {
+							if lk, ok := y.(*ssa.Lookup); ok && lk.CommaOk {
+								saved := activeSubst
+								activeSubst = map[*ssa.Parameter]ssa.Value{}
+								for i, p := range h.Params {
+									if i < len(cl.Call.Args) {
+										activeSubst[p] = cl.Call.Args[i]
+									}
+								}
+								if isRegMap(lk.X) == "playerIDs" {
+									found = true
+								}
+								activeSubst = saved
+							}
+						})
+						return found
+					}
+				}
+				return false
 			}, func(x ssa.Instruction) bool {
 				if call, ok := x.(*ssa.Call); ok {
 					if p, _, ok := lockOp(&call.Call); ok && strings.HasSuffix(p, ".muP") {
@@ -228,14 +252,41 @@ func runC11(c *Ctx) {
 
 	// (4) kick path ordering in registerConnection
 	if reg != nil {
+		// disc/store: the instructions of registerConnection that disconnect the existing player and set its
+		// duplicate flag — directly, or by calling an unexported helper that does both (then both denote
+		// the helper call for guards and lock state, and the order is checked inside the helper)
 		var disc, store ssa.Instruction
 		eachInstr(reg, func(in ssa.Instruction) {
-			if cc := callOf(in); cc != nil {
-				switch {
-				case methodName(cc) == "Disconnect":
+			cc := callOf(in)
+			if cc == nil {
+				return
+			}
+			switch {
+			case methodName(cc) == "Disconnect":
+				disc = in
+			case methodName(cc) == "Store" && strings.Contains(PathOf(cc.Args[0]), "disconnectDueToDuplicateConnection"):
+				store = in
+			default:
+				h := staticCallee(cc)
+				if h == nil || !isUnexportedHelper(h) {
+					return
+				}
+				var hd, hs ssa.Instruction
+				eachInstr(h, func(x ssa.Instruction) {
+					if c2 := callOf(x); c2 != nil {
+						switch {
+						case methodName(c2) == "Disconnect":
+							hd = x
+						case methodName(c2) == "Store" && strings.Contains(PathOf(c2.Args[0]), "disconnectDueToDuplicateConnection"):
+							hs = x
+						}
+					}
+				})
+				if hd != nil {
 					disc = in
-				case methodName(cc) == "Store" && strings.Contains(PathOf(cc.Args[0]), "disconnectDueToDuplicateConnection"):
-					store = in
+					if hs != nil && domBefore(hs, hd) {
+						store = in // set before the disconnect inside the helper
+					}
 				}
 			}
 		})
@@ -260,7 +311,7 @@ func runC11(c *Ctx) {
 			_, locked := held["p.muP"]
 			c.Check("kick-unlocked", "Disconnect@registerConnection", disc, !locked,
 				"existing.Disconnect is called with muP held; its teardown calls unregisterConnection which locks muP (self-deadlock)")
-			c.Check("kick-order", "flag-before-Disconnect@registerConnection", disc, store != nil && domBefore(store, disc),
+			c.Check("kick-order", "flag-before-Disconnect@registerConnection", disc, store != nil && (store == disc || domBefore(store, disc)),
 				"disconnectDueToDuplicateConnection must be set before the existing player is disconnected")
 			// after the Disconnect the insertion must not be reachable without re-testing: covered by test-and-insert.
 		}
